@@ -1,7 +1,7 @@
 //! C11 — concurrent readers and the indexer can never deadlock the server.
 //!
 //! Stage A: lock-discipline monitor (offline checker over the lock-event log of every method run
-//! single-threaded). Stage B: each candidate is confirmed by a forced schedule in a child process
+//! single-threaded). In the mid-block state one executing read (eth_call) is run through its 5-second give-up path. Stage B: each candidate is confirmed by a forced schedule in a child process
 //! (pause at the nested acquisition, let a writer queue up, release, observe the wait-for cycle).
 //! Stress: many readers + indexer + maintenance thread with delays injected at acquisitions.
 
@@ -230,8 +230,11 @@ fn stage_a(shared: &Arc<Shared>, out: &mut ChildOut) -> BTreeMap<Nest, (String, 
         for m in &names {
             st.n += 1;
             st.fresh_hash = crate::hist::bh((0xf11_0000u64 + st.n) as u64);
-            if state == "mid-block" && matches!(m.as_str(), "eth_call" | "eth_callMany" | "eth_estimateGas" | "eth_estimateGasMany" | "brc20_balance") {
-                continue; // would stall 5 s by design
+            // executing reads wait up to 5 s for an open block and then give up: one of them is run
+            // through that give-up path (its lock pattern is part of the discipline), the others are
+            // skipped because they share the code and each would cost another 5 s
+            if state == "mid-block" && matches!(m.as_str(), "eth_callMany" | "eth_estimateGas" | "eth_estimateGasMany" | "brc20_balance") {
+                continue;
             }
             let Some(p) = template(m, &st) else { continue };
             let before: BTreeMap<Nest, u64> = shared.m.lock().unwrap().nests.clone();
